@@ -196,6 +196,34 @@ func runC09(r *mon.Run) {
 		x, e := quantizeOperand(t.Rng, c)
 		quantizeCase(t, "all", c, x, e)
 	})
+	// Precisions at which 10^P lies within 3e-3 of a power of two (497, 643, 849,
+	// ...: gen.CoincidenceExps) and their neighbours, with coefficients of P and
+	// P+1 digits just above and below 10^P: where a digit-limit test that is
+	// decided from the bit length goes wrong first.
+	coinP := gen.CoincidenceExps(100, 5000, 3e-3)
+	r.Parallel("coincidence-precision", int64(len(coinP))*r.N(6, 60), func(t *mon.T) {
+		rr := t.Rng
+		P := coinP[t.Index%int64(len(coinP))] + []int64{0, 0, 0, -1, 1}[rr.Intn(5)]
+		c := dec.Ctx{P: P, Emin: -6143, Emax: 6144, Mode: gen.Mode(rr)}
+		var cf *big.Int
+		switch rr.Intn(5) {
+		case 0:
+			cf = new(big.Int).Set(dec.Pow10(P)) // P+1 digits
+		case 1:
+			cf = new(big.Int).Add(dec.Pow10(P), big.NewInt(rr.Range(1, 99999)))
+		case 2:
+			cf = new(big.Int).Sub(dec.Pow10(P), big.NewInt(rr.Range(1, 99999))) // P digits
+		case 3:
+			cf = new(big.Int).Add(dec.Pow10(P-1), big.NewInt(rr.Range(0, 99999)))
+		default:
+			cf = new(big.Int).Sub(dec.Pow10(P+1), big.NewInt(rr.Range(1, 9))) // P+1 nines
+		}
+		xe := -rr.Range(0, 3)
+		e := xe + []int64{0, 0, 1, 1, 2, -1}[rr.Intn(6)]
+		quantizeCase(t, "all", c, dec.D{Form: dec.Finite, Neg: rr.Bool(), C: cf, E: xe}, e)
+		t.Count("coincidence-precision")
+	})
+	r.Require("coincidence-precision", 200)
 	r.Parallel("integral", r.N(150000, 15000000), func(t *mon.T) {
 		c := gen.Context(t.Rng)
 		x := integralOperand(t.Rng, c)
@@ -269,6 +297,25 @@ func runC10(r *mon.Run) {
 		x, y := remPair(t.Rng, c)
 		remCase(t, "all", c, x, y)
 	})
+	// QuoInteger and Rem do not get slower with the precision, so a caller who
+	// wants exact integer division sets it as high as it goes: precisions from
+	// 2^31 up (where an int32 conversion of Precision wraps), long quotients and
+	// exponent gaps beyond the power-of-ten table.
+	r.Parallel("huge-precision", r.N(4000, 200000), func(t *mon.T) {
+		rr := t.Rng
+		gc := gen.Context(rr)
+		if gc.P > 40 {
+			gc.P = 40
+		}
+		x, y := remPair(rr, gc)
+		if rr.Chance(1, 3) && !x.IsZero() {
+			x.E += rr.Range(129, 400)
+		}
+		c := dec.Ctx{P: []int64{1 << 31, 1<<31 + 5, 3000000000, 4294967295, 1<<31 - 1}[rr.Intn(5)], Emin: -100000, Emax: 100000, Mode: gen.Mode(rr)}
+		remCase(t, "all", c, x, y)
+		t.Count("huge-precision")
+	})
+	r.Require("huge-precision", 3000)
 	for _, cl := range []string{"class/division-impossible", "class/quotient", "class/quotient-zero", "class/quotient-full-precision", "class/remainder-zero",
 		"class/remainder-exact", "identity-checked"} {
 		r.Require(cl, 100)
